@@ -14,9 +14,19 @@ export GOFLAGS=-mod=mod GOPROXY=off GOSUMDB=off GOTOOLCHAIN=local
 export GOCACHE="${GOCACHE:-$HOME/.cache/go-build}"
 mkdir -p bin evidence
 
+# VERIF_REPO (default /repo) selects the moss tree to build against.  The
+# registered commands always use /repo; seeded-change trials point it at a
+# scratch worktree so that /repo itself stays untouched.
+REPO="${VERIF_REPO:-/repo}"
+MODFLAGS=()
+if [ "$REPO" != "/repo" ]; then
+  MF="$VERIF/bin/go.$$.mod"
+  sed "s#=> /repo#=> $REPO#" harness/go.mod > "$MF"; cp harness/go.sum "$VERIF/bin/go.$$.sum"
+  MODFLAGS=(-modfile="$MF")
+fi
 build() { # $1 = output, $2... = extra flags
   local out="$1"; shift
-  (cd harness && go build -tags verif "$@" -o "$out" ./cmd/mosscheck) || { echo "HARNESS-ERROR build failed"; exit 3; }
+  (cd harness && go build "${MODFLAGS[@]}" -tags verif "$@" -o "$out" ./cmd/mosscheck) || { echo "HARNESS-ERROR build failed"; exit 3; }
 }
 
 needs_race() { case "$1" in C17) return 0;; *) return 1;; esac; }
@@ -43,15 +53,15 @@ if [ -z "$SCR_ROOT" ]; then
   if [ -d /dev/shm ] && [ -w /dev/shm ]; then SCR_ROOT=/dev/shm; else SCR_ROOT="${TMPDIR:-/tmp}"; fi
 fi
 SCR="$SCR_ROOT/mossverif.$$"
-cleanup() { rm -rf "$BIN" "$RBIN" "$SCR"; }
+cleanup() { rm -rf "$BIN" "$RBIN" "$SCR" "$VERIF/bin/go.$$.mod" "$VERIF/bin/go.$$.sum"; }
 trap cleanup EXIT
 build "$BIN"
-rm -f "$VERIF"/replays/"$ID"-* 2>/dev/null
+rm -f "${VERIF_OUT:-$VERIF}"/replays/"$ID"-* 2>/dev/null
 EXTRA=()
 if needs_race "$ID" || [ "${VERIF_RACE:-}" = 1 ]; then
   RBIN="$VERIF/bin/mosscheck-race.$$"
   build "$RBIN" -race
   EXTRA=(--racebin "$RBIN")
 fi
-"$BIN" run --prop "$ID" --tier "$TIER" --seed "$SEED" --verif "$VERIF" --scratch "$SCR" "${EXTRA[@]}"
+"$BIN" run --prop "$ID" --tier "$TIER" --seed "$SEED" --verif "${VERIF_OUT:-$VERIF}" --scratch "$SCR" "${EXTRA[@]}"
 exit $?
